@@ -1037,6 +1037,18 @@ class FnCtx:
                 else:
                     out.append(({la: -1}, 1))
             return out
+        if d[0] == "discr" and d[1][0] == "call" and isinstance(d[1][1], str) and d[1][1].endswith("::get") and len(d[1][2]) == 2 \
+                and ("slice" in d[1][1] or "Vec" in d[1][1]) and ((vals == [1] and not other) or (other and 0 in excl and not vals)):
+            # v.get(i) is Some exactly when i < v.len()
+            gc = d[1]
+            site = gc[3][1] if len(gc) > 3 and gc[3] else sb
+            la = self.len_atom(gc[2][0], site)
+            li = self.linear(gc[2][1], sb)
+            if la is not None and li is not None:
+                co = dict(li[0])
+                co[la] = co.get(la, 0) - 1
+                out.append((co, li[1] + 1))
+            return out
         if d[0] == "discr" and not other and len(vals) == 1:
             # a Result / Option that is a join of constructors (an inlined helper's `return Err(..)` / `Ok(..)`): taking the
             # Ok edge means control came through the predecessor that built the Ok, so whatever held there holds here
